@@ -20,6 +20,12 @@ def builds_needed(tier):
     return ["rel"]
 
 
+# Own corpus re-run on other builds of the crate (mc/core.py: extra builds). Every observation is compared with the same model.
+def extra_builds(tier):
+    return [("relchk", None), ("fe32", None)]
+
+
+
 def bounds(tier):
     return {"honest_pairs": len(pairs(tier)), "sig_bits": 512, "key_bits": 256, "S_plus_kL": "all k with S+kL < 2^256"}
 
@@ -150,7 +156,7 @@ def cases(tier):
     return out + crafted_cases(tier)
 
 
-def shards(tier):
+def _own_shards(tier):
     return [("shard_pair", i) for i in range(len(pairs(tier)))] + [("shard_crafted", None)]
 
 
@@ -175,3 +181,17 @@ def shard_crafted(_, tier):
     ck.stats.extra["accepting_cases"] = sum(1 for c in cs if c[2]["accept"])
     ck.stats.extra["crafted_small_order_accepts"] = sum(1 for c in cs if c[2]["accept"])
     return ck.stats
+
+
+def shards(tier):
+    # verification is a canonical-scalar check, a wide reduction, a point decoding and a double-scalar multiplication: the scalar / recoding / codec programs of C15 drive their rare paths directly, as a component of this property
+    from props import c15
+    comp = []
+    for fname in ['shard_scalar', 'shard_scalar_hooks', 'shard_codec']:
+        comp += [("shard_c15_component", (f, a)) for (f, a) in c15.shards(tier) if f == fname]
+    return _own_shards(tier) + comp
+
+
+def shard_c15_component(arg, tier):
+    from mc import multi
+    return multi.run_component("c15", arg[0], arg[1], tier, PROPERTY_ID)
